@@ -139,3 +139,44 @@ pub fn history(toks: &[&str]) -> String {
     VCLOCK.store(-1, Ordering::SeqCst);
     format!("cfg={} obs={}", dump_config(&conf), out.join(";"))
 }
+
+fn addrset(s: &Option<dhcp::pool::PoolAddresses>) -> String {
+    match s {
+        None => "n".into(),
+        Some(set) => {
+            let mut v: Vec<u32> = set.iter().map(|a| u32::from(*a)).collect();
+            v.sort();
+            if v.is_empty() { "-".into() } else { v.iter().map(|a| a.to_string()).collect::<Vec<_>>().join(",") }
+        }
+    }
+}
+
+fn preorder(p: &dhcp::config::Policy, out: &mut Vec<String>) {
+    out.push(addrset(&p.apply_address));
+    for c in &p.policies {
+        preorder(c, out);
+    }
+}
+
+/// `dhcpcfg cfg=<hex yaml> sip=<n> …`: the address sets the loader and build_default_config produce (C02)
+pub fn cfgsets(toks: &[&str]) -> String {
+    let conf = match load(kv(toks, "cfg")) {
+        Ok(c) => c,
+        Err(_) => return "cfgerr".into(),
+    };
+    let conf = conf.try_read().expect("harness: config lock");
+    let mut pol = vec![];
+    for p in &conf.dhcp.policies {
+        preorder(p, &mut pol);
+    }
+    let mut hdr = vec![0u8; 240];
+    hdr[0] = 1;
+    hdr[1] = 1;
+    hdr[236..240].copy_from_slice(&[0x63, 0x82, 0x53, 0x63]);
+    hdr.push(255);
+    let req = dhcp::DHCPRequest { pkt: dhcppkt::parse(&hdr).expect("harness: base"), serverip: ip4(num(toks, "sip")), ifindex: 1, if_mtu: None, if_router: None };
+    let def = dhcp::build_default_config(&conf, &req);
+    let defs: Vec<String> = def.policies.iter().map(|p| addrset(&p.apply_address)).collect();
+    let j = |v: &Vec<String>| if v.is_empty() { "e".to_string() } else { v.join("+") };
+    format!("pol={} def={}", j(&pol), j(&defs))
+}
